@@ -106,16 +106,58 @@ class Flow:
         if node.kind == 'test' and isinstance(node.ast, ast.Name):
             pass
         if '$mut' not in facts:
-            fk = tuple(sorted((k, repr(v)) for k, v in facts.items() if k[:1] != '$'))
+            clean = {k: v for k, v in facts.items() if k[:1] != '$'}
+            fk = tuple(sorted((k, repr(v)) for k, v in clean.items()))
             key = (node.id, fk)
             if key not in self._mut_cache:
-                self._mut_cache[key] = self.ef.node_mutates(self.fi, self.cfg, node, self.param,
-                                                            [{k: v for k, v in facts.items() if k[:1] != '$'}],
+                self._mut_cache[key] = self.ef.node_mutates(self.fi, self.cfg, node, self.param, [clean],
                                                             ignore=set(PAIRS) | set(RELEASE_OF), consts=self.consts)
             hits = self._mut_cache[key]
             if hits:
-                upd['$mut'] = lit(getattr(hits[0], 'lineno', node.lineno))
+                mut = {'$mut': lit(getattr(hits[0], 'lineno', node.lineno))}
+                # `if [not] helper(self, ...):` where the helper mutates only on the paths on which it returns a truthy value
+                rv = self._return_correlated(node, hits, clean)
+                if rv is not None:
+                    edges = {}
+                    for lab in ('true', 'false'):
+                        callee_truth = (lab == 'true') != rv[0]
+                        e = dict(upd)
+                        if rv[1][callee_truth]:
+                            e.update(mut)
+                        edges[lab] = e
+                    return {'@edges': edges}
+                upd.update(mut)
         return upd or None
+
+    def _return_correlated(self, node, hits, facts):
+        """For a test node `f(...)` / `not f(...)` whose only mutating construct is that call: (negated?, {True: mutates when it
+        returns truthy, False: mutates when it returns falsy}); None when not applicable."""
+        if node.kind != 'test' or len(hits) != 1 or not isinstance(hits[0], ast.Call):
+            return None
+        t, neg = node.ast, False
+        while isinstance(t, ast.UnaryOp) and isinstance(t.op, ast.Not):
+            t, neg = t.operand, not neg
+        if t is not hits[0]:
+            return None
+        ce = self.ef._ce(self.fi).get(id(t), [])
+        if len(ce) != 1:
+            return None
+        cal, binding = ce[0]
+        res = {True: False, False: False}
+        for cc in self.ef.call_consts_all(cal, binding, [facts]):
+            r = mutation_by_return(self.ef, cal, self._callee_param(cal, binding), cc)
+            if r is None:
+                return None
+            res[True] |= r[True]
+            res[False] |= r[False]
+        return neg, res
+
+    def _callee_param(self, cal, binding):
+        for q, a in binding.items():
+            if self.param in self.ef.expr_roots(self.fi, a):
+                return q
+        return 'self'
+
 
     # ------------------------------------------------------------------------------------------------------------------
     def states(self, node_id):
@@ -163,3 +205,36 @@ class Flow:
     def exit_preds(self):
         cfg = self.cfg
         return [(lab, cfg.nodes[p]) for lab, p in cfg.preds()[cfg.exit]]
+
+
+def mutation_by_return(ef, cal, param, consts):
+    """{True: the callee can have mutated the tree of `param` when it returns a truthy value, False: ... a falsy value}.
+    None if some return value's truthiness is unknown."""
+    from ..constprop import eval_expr, truth
+    key = ('byret', cal.key, param, tuple(sorted((k, repr(v)) for k, v in consts.items())))
+    c = ef._raises.get(key, 0)
+    if c != 0:
+        return c
+    ef._raises[key] = None
+    flow = Flow(ef, cal, param, {k: v for k, v in consts.items() if k in cal.params()})
+    res = {True: False, False: False}
+    ok = True
+    for lab, pn in flow.exit_preds():
+        for d in flow.states(pn.id):
+            if pn.kind == 'stmt' and isinstance(pn.ast, ast.Return):
+                tv = truth(eval_expr(pn.ast.value, d)) if pn.ast.value is not None else False
+            else:
+                tv = False        # falling off the end returns None
+            mutated = '$mut' in d
+            if not mutated:
+                # the return statement itself may contain the mutating call (`return helper(self)`)
+                mutated = bool(ef.node_mutates(cal, flow.cfg, pn, param, [{k: v for k, v in d.items() if k[:1] != '$'}], consts=flow.consts))
+            if tv is None:
+                if mutated:
+                    ok = False
+                continue
+            if mutated:
+                res[tv] = True
+    out = res if ok else None
+    ef._raises[key] = out
+    return out
